@@ -75,6 +75,18 @@ Theorem C15_defaults_per_key :
     (kv_last k_time (sub_bodies k_cache ss) = None -> cf_cache_time (denote bl ss) = default_cache_time).
 Proof. exact defaults_per_key. Qed.
 
+(* The defaults regenerated from config.rs / default.rs on every run are the published ones: listening on 0.0.0.0:80 with
+   32 threads, no timeout, blacklist mode "block", log level warn on the console, no cache, default host "*"; and the
+   configuration used when there is no file at all (default.rs) has the same address, port and thread count. A changed
+   default changes TablesConfig.v and breaks this theorem. *)
+Theorem C15_defaults_pinned :
+  default_address = [48;46;48;46;48;46;48] /\ default_port = 80 /\ default_threads = 32 /\ default_timeout = 0 /\
+  default_blacklist_mode = [98;108;111;99;107] /\ default_log_level = 1 /\ default_log_console = true /\
+  default_cache_size = 0 /\ default_cache_time = 0 /\ default_host_matches = [42] /\
+  default_lb_mode = [114;111;117;110;100;45;114;111;98;105;110] /\ min_threads = 1 /\
+  nofile_address = default_address /\ nofile_port = default_port /\ nofile_threads = default_threads /\ nofile_log_level = 2.
+Proof. repeat split; reflexivity. Qed.
+
 (* independent of what else is configured; hosts and routes in file order *)
 Theorem C15_independent_of_other_keys :
   forall (bl : list bytes) (a b : list sitem) (k : bytes) (v : value), ~ In k documented_keys ->
@@ -275,6 +287,7 @@ Example C15_example_loads :
   end.
 Proof. vm_compute. repeat split. Qed.
 
+Print Assumptions C15_defaults_pinned.
 Print Assumptions C15_load_render.
 Print Assumptions C15_parse_render.
 Print Assumptions C15_from_tree_denote.
